@@ -12,6 +12,7 @@ LEVEL = 'proof'
 RULE = ('exhaustive over operand shapes of rank 1..R with extents 1..E (quick R=3,E=3 plus all rank-4 shapes with extents 1..2; thorough R=4,E=4, results capped in size and '
         'sub-sampled by a fixed stride where the pair space explodes): every NumPy-accepted pair for matmul (both implementations), dot, inner, '
         'outer, vecdot, kron; tensordot with every integer axes 0..min(dim) and every explicit ordered axis pairing (plus negative spellings); '
+        'view::matmul additionally over operands whose number of dimensions is a compile-time constant (std::array shape container: tuple slice lists in index::matmul), fixed-dim x fixed-dim and both mixed pairs; '
         'trace over every axis pair (positive and negative spelling) and every offset, negative ones included, with a non-empty diagonal (plus a bounded sample of empty diagonals); index::shape_matmul on ALL pairs '
         '(accepted or not). Integer data (two data sets) so sums are exact and a wrong pairing changes the value. '
         'non-trivial = some contraction / product over an extent > 1')
@@ -46,7 +47,8 @@ MANIFEST = dict(
 def harness_specs(tier):
     return [dict(name='h_c16_mm', src='h_c16_mm.cpp', flavour='fast'),
             dict(name='h_c16_dot', src='h_c16_dot.cpp', flavour='fast'),
-            dict(name='h_c16_td', src='h_c16_td.cpp', flavour='fast')]
+            dict(name='h_c16_td', src='h_c16_td.cpp', flavour='fast'),
+            dict(name='h_c16_mmk', src='h_c16_mmk.cpp', flavour='fast')]
 
 
 # ------------------------------------------------------------------------------------------------
@@ -127,7 +129,8 @@ def stride_pick(seq, keep):
 def gen(tier, rng):
     # the Lean driver serves these ops under the prefix `c16.` (op names like `outer`, `dot` also exist in other drivers)
     for c in _gen(tier, rng):
-        c.mreq = 'c16.' + c.req
+        if not c.mreq.startswith('c16.'):
+            c.mreq = 'c16.' + c.req
         yield c
 
 
@@ -180,6 +183,10 @@ def _gen(tier, rng):
         yield Case('matmul impl=v2 a=%s b=%s data=%s' % (fmt(a), fmt(b), m), 'h_c16_mm', oracle=orc, nontrivial=nt, tags=tags + ['v2'])
     for a, b in stride_pick(pairs, 400 if quick else 2000):
         yield Case('matmul_helpers a=%s b=%s' % (fmt(a), fmt(b)), 'h_c16_mm', nontrivial=False, tags=['helpers'])
+    # view::matmul over operands whose number of dimensions is a compile-time constant (shape container std::array):
+    # index::matmul then builds tuple slice lists (`if constexpr` branches of their own); same model answer as the
+    # run-time-dim operands.  Mixed pairs (one side fixed-dim, the other run-time) take the run-time branch for one side.
+    yield from matmul_kinds(mm, 220 if quick else 1500, mode)
 
     # ---- dot / inner / outer / vecdot / kron ----
     def binary(op, fn, harness, keep):
@@ -193,8 +200,11 @@ def _gen(tier, rng):
         for a, b in ok:
             m = mode()
             orc = show(fn(mk(a, m, 0), mk(b, m, 1)))
+            tags = [op, 'rank=%d,%d' % (len(a), len(b))]
+            if op == 'vecdot' and list(a[:-1]) != list(b[:-1]):
+                tags.append('leading-broadcast')      # leading axes of different rank / extent 1 against n
             yield Case('%s a=%s b=%s data=%s' % (op, fmt(a), fmt(b), m), harness, oracle=orc,
-                       nontrivial=(prod(a) > 1 and prod(b) > 1), tags=[op, 'rank=%d,%d' % (len(a), len(b))])
+                       nontrivial=(prod(a) > 1 and prod(b) > 1), tags=tags)
 
     yield from binary('dot', np.dot, 'h_c16_dot', 6000)
     yield from binary('inner', np.inner, 'h_c16_dot', 6000)
@@ -274,6 +284,25 @@ def _gen(tier, rng):
 
     # ---- seeded random larger cases (extents up to 7, rank up to 4), every routine ----
     yield from random_cases(rng, 60 if quick else 600, cap if quick else 4000)
+
+
+MATMUL_KIND_1D = False      # fixed-dim 1-d operands instantiate only on a tree with fix C16-matmul-1d-operand
+
+
+def matmul_kinds(mm, keep, mode):
+    ok = [(a, b) for a, b in mm if (MATMUL_KIND_1D or (len(a) >= 2 and len(b) >= 2))]
+    for lk, rk in (('fd', 'fd'), ('fd', 'dyn'), ('dyn', 'fd')):
+        sel = [(a, b) for a, b in ok if not (len(a) == 1 and len(b) == 1 and lk == 'fd' and rk == 'fd')]
+        if not MATMUL_KIND_1D:
+            sel = [(a, b) for a, b in sel if len(a) >= 2 and len(b) >= 2]
+        for a, b in stride_pick(sel, keep):
+            m = mode()
+            orc = show(np.matmul(mk(a, m, 0), mk(b, m, 1)))
+            tags = ['matmul', 'kinds', 'lhs=' + lk, 'rhs=' + rk, 'rank=%d,%d' % (len(a), len(b))]
+            if len(a) == 1 or len(b) == 1:
+                tags.append('1d-promotion')
+            yield Case('matmul_k a=%s b=%s lhs_kind=%s rhs_kind=%s data=%s' % (fmt(a), fmt(b), lk, rk, m), 'h_c16_mmk', oracle=orc,
+                       mreq='c16.matmul impl=v1 a=%s b=%s data=%s' % (fmt(a), fmt(b), m), nontrivial=a[-1] > 1, tags=tags)
 
 
 def _bc_partner(rng, batch):
